@@ -299,6 +299,10 @@ Definition is_field_in_bounds (s : strct) (off : Z) (t : ftype) : bool :=
   | _ => off + 1 <=? s_pcount s
   end.
 
+(* no Go type matches Void (typeMap has no entry), so neither does a slice type match List(Void) *)
+Fixpoint mappable (t : ftype) : bool :=
+  match t with TVoid => false | TList e => mappable e | _ => true end.
+
 (* isTypeMatch, on values (Go's static typing of the mapped field) *)
 Fixpoint vmatch (t : ftype) (v : gval) {struct t} : bool :=
   match t, v with
@@ -307,8 +311,8 @@ Fixpoint vmatch (t : ftype) (v : gval) {struct t} : bool :=
   | TText false, GBytes (Some _) => true
   | TText true, GBytes _ => true
   | TData, GBytes _ => true
-  | TList e, GList None => true
-  | TList e, GList (Some vs) => forallb (vmatch e) vs
+  | TList e, GList None => mappable e
+  | TList e, GList (Some vs) => mappable e && forallb (vmatch e) vs
   | TStruct true _, GStruct _ => true
   | TStruct false _, GStruct (Some _) => true
   | TIface, GPtr (PCap _) => true
@@ -392,10 +396,7 @@ Section Insert.
     end.
 
   (* insertField *)
-  Definition insert_field (s : strct) (off : Z) (t : ftype) (d : dflt) (v : gval) : res strct :=
-    match d with
-    | DBad => Err
-    | _ =>
+  Definition insert_field_body (s : strct) (off : Z) (t : ftype) (d : dflt) (v : gval) : res strct :=
       if negb (vmatch t v) then Err
       else if negb (is_field_in_bounds s off t) then Err
       else
@@ -432,7 +433,12 @@ Section Insert.
         | TIface, GPtr p => write_ptr s off p
         | TAnyPtr, GPtr p => write_ptr s off p
         | _, _ => Err
-        end
+        end.
+
+  Definition insert_field (s : strct) (off : Z) (t : ftype) (d : dflt) (v : gval) : res strct :=
+    match d with
+    | DBad => Err         (* default value of another type than the field *)
+    | _ => insert_field_body s off t d v
     end.
 
   Fixpoint insert_fields (hasWhich : bool) (disc : list bool) (s : strct)
@@ -546,10 +552,7 @@ Section Extract.
     end.
 
   (* extractField *)
-  Definition extract_field (s : strct) (off : Z) (t : ftype) (d : dflt) : res gval :=
-    match d with
-    | DBad => Err
-    | _ =>
+  Definition extract_field_body (s : strct) (off : Z) (t : ftype) (d : dflt) : res gval :=
       match t with
       | TVoid => Err                       (* isTypeMatch fails for every Go type *)
       | TBool => Ok (GBool (xorb (read_bit s off) (match dflt_bits d 1 with x :: _ => x | [] => false end)))
@@ -575,7 +578,12 @@ Section Extract.
       | TAnyPtr =>
         let p := read_ptr s off in
         Ok (GPtr (if ptr_valid p then p else dflt_ptr d))
-      end
+      end.
+
+  Definition extract_field (s : strct) (off : Z) (t : ftype) (d : dflt) : res gval :=
+    match d with
+    | DBad => Err
+    | _ => extract_field_body s off t d
     end.
 
   Fixpoint extract_fields (hasWhich : bool) (disc : list bool) (s : strct) (fs : list field)
@@ -643,7 +651,7 @@ Definition gen_check_which (n : snode) (s : strct) (dv : option (list bool)) : b
   | None => true
   | Some v =>
     match n_disc n with
-    | Some doff => eqb_bits (read_int s doff 16) v
+    | Some doff => eqb_bits v (read_int s doff 16)
     | None => false
     end
   end.
@@ -832,22 +840,43 @@ Fixpoint node_fp (fuel : nat) (sch : schema) (id : Z) : option (list loc) :=
       (fix go (fs : list field) : option (list loc) :=
          match fs with
          | [] => Some (disc_loc n)
-         | FSlot _ _ off t _ :: r =>
+         | FSlot true _ off t _ :: r =>
            match go r with Some F => Some (slot_loc off t ++ F) | None => None end
-         | FGroup _ _ gid :: r =>
+         | FGroup true _ gid :: r =>
            match node_fp f sch gid, go r with
            | Some G, Some F => Some (G ++ F)
            | _, _ => None
            end
+         | _ :: r => go r       (* no Go field: never touched *)
          end) (n_fields n)
     end
   end.
 
-Definition field_fp (fuel : nat) (sch : schema) (f : field) : option (list loc) :=
-  match f with
-  | FSlot _ _ off t _ => Some (slot_loc off t)
-  | FGroup _ _ gid => node_fp fuel sch gid
+(* The layout check.  A footprint table (node id -> locations) is computed with [node_fp] and then
+   VERIFIED locally: every mapped field's footprint lies inside its node's footprint, and fields
+   that can be live together (and the discriminant) have disjoint footprints. *)
+Definition fptable := list (Z * list loc).
+
+Fixpoint fp_of (tbl : fptable) (id : Z) : list loc :=
+  match tbl with
+  | [] => []
+  | (i, F) :: r => if i =? id then F else fp_of r id
   end.
+
+Definition field_fp (tbl : fptable) (f : field) : list loc :=
+  match f with
+  | FSlot _ _ off t _ => slot_loc off t
+  | FGroup _ _ gid => fp_of tbl gid
+  end.
+
+Definition loc_eqb (a b : loc) : bool :=
+  match a, b with
+  | LData s1 n1, LData s2 n2 => (s1 =? s2) && (n1 =? n2)
+  | LPtr i, LPtr j => i =? j
+  | _, _ => false
+  end.
+Definition locs_incl (A B : list loc) : bool :=
+  forallb (fun a => existsb (loc_eqb a) B) A.
 
 (* two fields may be live together unless both are union members with different values *)
 Definition may_coexist (f g : field) : bool :=
@@ -860,46 +889,45 @@ Definition slot_ok (f : field) : bool :=
   match f with
   | FSlot _ dv off t d =>
     (0 <=? off) &&
-    match dv with Some v => (length v =? 16)%nat | None => true end &&
     match t with
     | TBool => match d with DBits [_] | DAbsent => true | _ => false end
     | TInt w => match d with DBits bs => (length bs =? w)%nat | DAbsent => true | _ => false end
                 && ((w =? 8) || (w =? 16) || (w =? 32) || (w =? 64))%nat
     | TStruct _ _ => match ptr_struct (dflt_ptr d) with None => true | Some _ => false end
+    | TAnyPtr => negb (ptr_valid (dflt_ptr d))
+    | TList _ => match ptr_list (dflt_ptr d) with Some l => negb (list_len l =? 0)%nat | None => true end
     | _ => true
     end
-  | FGroup _ dv _ => match dv with Some v => (length v =? 16)%nat | None => true end
+  | FGroup _ dv _ => true
   end.
 
 (* fields without a Go counterpart are never inserted or extracted: they are not constrained *)
-Fixpoint fields_ok (fuel : nat) (sch : schema) (D : list loc) (fs : list field) : bool :=
+Fixpoint fields_ok (tbl : fptable) (N D : list loc) (fs : list field) : bool :=
   match fs with
   | [] => true
   | f :: r =>
     (if f_present f then
-       slot_ok f &&
-       match field_fp fuel sch f with
-       | None => false
-       | Some F =>
-         locs_disjoint F D &&
-         forallb (fun g => if f_present g && may_coexist f g then
-                             match field_fp fuel sch g with
-                             | None => false
-                             | Some G => locs_disjoint F G
-                             end
-                           else true) r
-       end
-     else true) && fields_ok fuel sch D r
+       slot_ok f && locs_incl (field_fp tbl f) N && locs_disjoint (field_fp tbl f) D &&
+       forallb (fun g => if f_present g && may_coexist f g
+                         then locs_disjoint (field_fp tbl f) (field_fp tbl g) else true) r
+     else true) && fields_ok tbl N D r
   end.
 
-Definition node_ok (fuel : nat) (sch : schema) (n : snode) : bool :=
-  match n_disc n with Some doff => 0 <=? doff | None => true end &&
-  match n_which n with WFixed z => (length z =? 16)%nat | _ => true end &&
-  fields_ok fuel sch (disc_loc n) (n_fields n).
+Definition node_ok (tbl : fptable) (id : Z) (n : snode) : bool :=
+  (* a Which field / fixed discriminant exists only for a node with a union (mapStruct) *)
+  match n_disc n, n_which n with Some doff, _ => 0 <=? doff | None, WNone => true | None, _ => false end &&
+  locs_incl (disc_loc n) (fp_of tbl id) &&
+  fields_ok tbl (fp_of tbl id) (disc_loc n) (n_fields n).
 
-(* every node of the schema has a conflict-free layout (checked to nesting depth [fuel] of groups) *)
+Definition fp_table (fuel : nat) (sch : schema) : fptable :=
+  map (fun p => (fst p, match node_fp fuel sch (fst p) with Some F => F | None => [] end)) sch.
+
+Definition table_ok (tbl : fptable) (sch : schema) : bool :=
+  forallb (fun p => node_ok tbl (fst p) (snd p)) sch.
+
+(* every node of the schema has a conflict-free layout (groups nested at most [fuel] deep) *)
 Definition schema_ok (fuel : nat) (sch : schema) : bool :=
-  forallb (fun p => node_ok fuel sch (snd p)) sch.
+  table_ok (fp_table fuel sch) sch.
 
 (* ------------------------------------------------------------------ observation helpers (driver) *)
 Definition struct_bytes (s : strct) : list Z :=
